@@ -89,6 +89,9 @@ class HidDevice:
         self.on_attempt = None        # callback(t_us, ok)
         self.on_detect = None         # callback(t_us)
         self.on_back = None           # callback(t_us)
+        self.node = "/dev/dali/daliusb-sim"   # the device node that exists while the device is present
+        self.unexpected_open_failures = []
+        self.renumber = False         # with a glob pattern: the node name changes every time the device comes back
         self.stalls = []              # [start_us, dur_us]: the host does not get round to reading (loop blocked,
         #                               process descheduled); reports pile up in the hidraw buffer until the end
         self._fired_iter = -1         # loop iteration in which the reader was last called
@@ -118,6 +121,9 @@ class HidDevice:
         self.generation += 1
         self.queue = []
         self.returns.append(self.world.now_us())
+        if self.renumber:
+            # a replugged USB device re-enumerates under the next free hidraw node
+            self.node = "/dev/dali/daliusb-sim%d" % len(self.returns)
         self.open_failures_left = self.open_failures_on_return
         self.world.log.add(self.loop.time(), "dev-back", self.name, None)
         self.on_reset()
@@ -131,11 +137,17 @@ class HidDevice:
         pass
 
     # ---- os-level operations ---------------------------------------------
-    def os_open(self):
+    def os_open(self, path=None):
         self.world.seam_call()
         t = int(round(self.loop.time() * 1e6))
-        if not self.present or self.open_failures_left > 0:
-            if self.present:
+        stale = self.renumber and path is not None and path != self.node
+        if stale:
+            self._bump("open-stale-node-name")
+            if self.present and self.open_failures_left <= 0:
+                # the device is there and can be opened - under the name the pattern matches *now*
+                self.unexpected_open_failures.append((t, path, self.node))
+        if not self.present or self.open_failures_left > 0 or stale:
+            if self.present and not stale:
                 self.open_failures_left -= 1
                 self._bump("open-fail")
             self.open_attempts.append((t, False))
@@ -264,7 +276,7 @@ class FakeOS:
         self.device = device
 
     def open(self, path, flags):
-        return self.device.os_open()
+        return self.device.os_open(path)
 
     def close(self, fd):
         return self.device.os_close(fd)
@@ -283,7 +295,7 @@ class FakeGlob:
 
     def glob(self, pattern):
         if self.device.present:
-            return [self.path]
+            return [self.device.node if self.device.renumber else self.path]
         # no matching node: the driver treats this as a failed attempt
         d = self.device
         d.open_attempts.append((d.world.now_us(), False))
